@@ -10,11 +10,39 @@ def _runtime(case):
     vals = []
     if what == "batch_jobs":
         from synkit.Synthesis.Reactor.batch_reactor import BatchReactor
+        opts = dict(case.get("opts", {}))          # explicit_h / implicit_temp / strategy / dedupe: must reach every worker process
+        key = "syn_bw" if case["inv"] else "syn_fw"
         for nj, pr, rj in case["jobs"]:
-            br_ = BatchReactor(list(case["subs"]), entry_n_jobs=nj, parallel_rules=pr, rule_n_jobs=rj,
-                               cache_enabled=case.get("cache", True), cache_maxsize=case.get("max", 32768))
+            if case.get("dict_entries"):
+                data = [{"smi": s_, "row": i} for i, s_ in enumerate(case["subs"])]
+                br_ = BatchReactor(data, "smi", entry_n_jobs=nj, parallel_rules=pr, rule_n_jobs=rj,
+                                   cache_enabled=case.get("cache", True), cache_maxsize=case.get("max", 32768), **opts)
+            else:
+                br_ = BatchReactor(list(case["subs"]), entry_n_jobs=nj, parallel_rules=pr, rule_n_jobs=rj,
+                                   cache_enabled=case.get("cache", True), cache_maxsize=case.get("max", 32768), **opts)
             res = br_.fit(list(case["rules"]), invert=case["inv"])
+            if case.get("twice"):                  # a second fit on the same object (cache filled by the first, shipped to the workers)
+                res = [res, br_.fit(list(case["rules"]), invert=case["inv"])]
             vals.append(["entry_jobs=%d parallel_rules=%s rule_jobs=%d" % (nj, pr, rj), res])
+        if case.get("single"):
+            # the reference of the property text: every entry on its own, rule by rule, fresh SynReactor on fresh graphs
+            from synkit.IO import smiles_to_graph, rsmi_to_its
+            from synkit.Synthesis.Reactor.syn_reactor import SynReactor
+            ref = []
+            for s_ in case["subs"]:
+                flat = []
+                for r in case["rules"]:
+                    try:
+                        g = smiles_to_graph(s_, drop_non_aam=False, use_index_as_atom_map=False)
+                        flat += list(SynReactor(substrate=g, template=rsmi_to_its(r, core=True), invert=case["inv"],
+                                                strategy=opts.get("strategy", "bt"), explicit_h=opts.get("explicit_h", True),
+                                                implicit_temp=opts.get("implicit_temp", False)).smarts_list)
+                    except Exception:
+                        pass
+                if opts.get("dedupe", True):
+                    flat = list(dict.fromkeys(flat))
+                ref.append({key: flat, "count": len(flat)})
+            vals.append(["every entry alone (SynReactor, rule by rule)", [ref, ref] if case.get("twice") else ref])
     elif what == "validate":
         from synkit.Chem.Reaction.aam_validator import AAMValidator
         opts = dict(case.get("opts", {}))
@@ -33,7 +61,12 @@ def _runtime(case):
         from synkit.Chem.Reaction.balance_check import BalanceReactionCheck
         for nj in case["jobs"]:
             chk = BalanceReactionCheck(n_jobs=nj)
-            b, u = chk.dicts_balance_check([dict(d) for d in case["data"]], rsmi_column="reactions")
+            if case.get("form") == "strings":      # list of plain reaction strings (parse_input wraps each one)
+                b, u = chk.dicts_balance_check([d["reactions"] for d in case["data"]])
+            elif case.get("form") == "string":     # a single reaction string
+                b, u = chk.dicts_balance_check(case["data"][0]["reactions"])
+            else:
+                b, u = chk.dicts_balance_check([dict(d) for d in case["data"]], rsmi_column="reactions")
             out = [b, u]
             if case.get("second_pass"):
                 # the caller edits the RESULT dicts of the first pass (they carry a "balanced" key) and checks them again with the
